@@ -238,7 +238,15 @@ func GenShakeGraph(r *Rand, o ShakeOpts) *Graph {
 		}
 		if o.EmptyFunc && r.Chance(2, 3) {
 			id := fmt.Sprintf("%s_ef", mid)
-			switch r.Intn(4) {
+			switch r.Intn(6) {
+			case 4:
+				// empty / identity function referenced as a VALUE once and also called inside a provably dead region of
+				// the same statement: the call use must not cancel the value use (the declaration has to stay)
+				dead := []string{"if (false) ef%[1]s(\"x\");", "false && ef%[1]s(1);", "if (0) { ef%[1]s(); }", "null ?? true ? 0 : ef%[1]s(2);"}[r.Intn(4)]
+				fmt.Fprintf(&sb, "function ef%[1]s(a) {}\nexport function inst%[1]s(bus) { bus.push(ef%[1]s); "+dead+" return bus; }\np(\"m%[2]d:inst\", typeof inst%[1]s([])[0]);\n", id, mi)
+			case 5:
+				dead := []string{"if (false) idf%[1]s(3);", "false && idf%[1]s(1);"}[r.Intn(2)]
+				fmt.Fprintf(&sb, "function idf%[1]s(x) { return x; }\nfunction reg%[1]s(list) { list.push(idf%[1]s); "+dead+" return list; }\np(\"m%[2]d:reg\", reg%[1]s([])[0](7));\n", id, mi)
 			case 0:
 				// empty function that is reassigned by code that gets shaken away, but called by live code
 				fmt.Fprintf(&sb, "function ef%s(a, b) {}\nexport function mut%s() { ef%s = function () { p(\"m%d:mutated\"); }; }\nef%s(1, 2);\np(\"m%d:ef-called\");\n", id, id, id, mi, id, mi)
